@@ -739,6 +739,62 @@ pub fn completeness(
                     format!("{out_rel}: no accessor `{getter}`"),
                 ));
             }
+            // The accessor hands out a reference to the declared type.
+            let want = format!("&mut {}", normalise_grammar_type(&ev.type_));
+            if let Some(Some(got)) = inv.fn_rets.get(&getter) {
+                if *got != want {
+                    return Err((
+                        "extern-value-type-changed".into(),
+                        format!("{out_rel}: `{getter}` declared {want} emitted {got}"),
+                    ));
+                }
+            }
+        }
+        // Every named field of every declared type is there with the declared type.
+        for d in &m.definitions {
+            let pyxis::grammar::ItemDefinitionInner::Type(t) = &d.inner else {
+                continue;
+            };
+            let Some(emitted) = inv.struct_fields.get(d.name.as_str()) else {
+                continue;
+            };
+            for s in &t.statements {
+                let pyxis::grammar::TypeField::Field(_, name, ty) = &s.field else {
+                    continue;
+                };
+                if name.as_str() == "_" {
+                    continue;
+                }
+                // Zero-sized arrays occupy no region and are not emitted.
+                if matches!(ty, pyxis::grammar::Type::Array(_, 0) | pyxis::grammar::Type::Unknown(0)) {
+                    continue;
+                }
+                let want = normalise_grammar_type(ty);
+                match emitted.iter().find(|(n, _)| n == name.as_str()) {
+                    Some((_, got)) if *got == want => {}
+                    Some((_, got)) => {
+                        return Err((
+                            "field-type-changed".into(),
+                            format!(
+                                "{out_rel}: `{}::{}` declared {want} emitted {got}",
+                                d.name, name
+                            ),
+                        ))
+                    }
+                    None => {
+                        // pyxis deliberately emits nothing for an array field whose total size
+                        // is zero ([T; 0], but also [Empty; 3]); sizes are not this oracle's
+                        // business, so only a missing non-array field is reported.
+                        let is_array = matches!(ty, pyxis::grammar::Type::Array(..));
+                        if !is_array {
+                            return Err((
+                                "field-left-out".into(),
+                                format!("{out_rel}: `{}::{}` is not in the emitted struct", d.name, name),
+                            ));
+                        }
+                    }
+                }
+            }
         }
     }
     Ok(())
